@@ -1215,6 +1215,7 @@ class RTCSctpTransport(AsyncIOEventEmitter):
                 if schunk.tsn in seen and not schunk._acked:
                     done_bytes += schunk._book_size
                     schunk._acked = True
+                    schunk._retransmit = False
                     self._flight_size_decrease(schunk)
                     highest_newly_acked = schunk.tsn
 
@@ -1517,6 +1518,9 @@ class RTCSctpTransport(AsyncIOEventEmitter):
 
         # mark retransmit or abandoned chunks
         for chunk in self._sent_queue:
+            # the flight size is reset below, so no chunk counts as gap-acked
+            # any more: it is booked again when it is retransmitted
+            chunk._acked = False
             if not self._maybe_abandon(chunk):
                 chunk._retransmit = True
         self._update_advanced_peer_ack_point()
